@@ -99,6 +99,11 @@ def main():
             open(p, "w").write(s)
             rc, t = sh("/venv/bin/python -m pytest -q -p no:cacheprovider -x --timeout=60 2>&1 | tail -1", cwd=wt, timeout=900)
             tests = t.strip()
+            if "109 passed" not in tests:
+                print("%-32s tests: %-22s (the repository's tests catch it - not a seeded change)" % (name, tests[:22]))
+                results[name] = {"file": f, "old": old, "new": new, "tests": tests, "verdict": "caught by the existing tests",
+                                 "tests_still_pass": False}
+                continue
             env = dict(os.environ)
             env["VERIF_REPO"] = wt
             env["VERIF_EVIDENCE_DIR"] = "/tmp/mut_evidence_%d" % os.getpid()
